@@ -103,7 +103,7 @@ PROPS = {
         'rule': "mixed requests with 15% faults; recorder run: random events from 16 goroutines with Reset barriers. distinct_nontrivial = distinct requests with a non-plain response",
     },
     'C13': {
-        'level_text': "Theorems C13_fixed_order (revisions and their order depend on level:version only), C13_reason_specific (never empty / placeholder), C13_once (no two violated controls share a reason, for every level, version, pod -- from the decided fact that co-active revisions have distinct reason keys), C13_mk_fields / C13_*_offenders / C13_offenders_are_violators (listed names = names of the objects violating the control's predicate), detail shapes; reason and detail bytes of every revision and evaluation compared with the real code. C13_detail_names_offenders: for all eighteen detail shapes, every revision and every pod, the rendered detail contains between quotes the name of every container / volume the structured result lists.",
+        'level_text': "Theorems C13_fixed_order (revisions and their order depend on level:version only), C13_reason_specific (never empty / placeholder), C13_once (no two violated controls share a reason, for every level, version, pod -- from the decided fact that co-active revisions have distinct reason keys), C13_mk_fields / C13_*_offenders / C13_offenders_are_violators (listed names = names of the objects violating the control's predicate), detail shapes; reason and detail bytes of every revision and evaluation compared with the real code. C13_detail_names_offenders: for all eighteen detail shapes, every revision and every pod, the rendered detail contains between quotes the name of every container / volume the structured result lists. C13_detail_names_only: conversely, when the reported names and values are free of the quote byte, every string between quotes in the detail is a listed offender or one of the values the control quotes (Psa/QuoteShapes, QuoteProofs, QuoteMain: a quote-segment scanner over the rendered bytes, all eighteen shapes).",
         'level_note': "Trusted: Lean kernel; harness; Go's %q modelled for printable ASCII, the named escapes and a few non-ASCII runes. A harmless rewording of a message breaks this correspondence by design (reported with no-failing-input-found).",
         'rule': "same pod generator; reason/detail bytes of every revision and of every evaluation compared with the model's rendering; direct oracles on the Go output: "
                 "no empty/placeholder/duplicate reason, fixed check order, quoted names are offenders. distinct_nontrivial = (pod, level, version) with >= 2 violated controls",
